@@ -788,6 +788,14 @@ func osfsEngine(c *Ctx) {
 	// whatever bookkeeping the resolver keeps about its depth, the base is the floor
 	corpus = append(corpus, []osNode{{"secret", 'f', ""}, {"d", 'd', ""}, {"d/up", 'L', "/"}, {"d/lnk", 'L', "up/../../secret"}, {"d/l2", 'L', "up/../../../secret"},
 		{"d/sub", 'd', ""}, {"d/sub/up2", 'L', "../.."}, {"d/sub/l3", 'L', "up2/../../secret"}, {"l4", 'L', "d/up/../../secret"}, {"sub", 'L', "d/up/../.."}})
+	// one link text that passes through the same other link twice (`S/…/S/secret`, S an absolute link to the outside whose
+	// re-rooted target exists inside the base): the second meeting is resolved like the first — it is neither a cycle to
+	// report, nor a link to leave unresolved for the kernel
+	{
+		ups := strings.Repeat("../", 14)
+		corpus = append(corpus, []osNode{{"S", 'L', "@OUT@"}, {"@OUTREL@/secret", 'f', ""}, {"@OUTREL@/a", 'f', ""}, {"l1", 'L', "S/" + ups + "S/secret"}, {"l2", 'L', "S/../S/secret"},
+			{"d", 'd', ""}, {"d/l1", 'L', "../S/" + ups + "S/secret"}, {"sub", 'L', "S/" + ups + "S"}, {"f", 'L', "S/" + ups + "S/" + ups + "S/secret"}})
+	}
 	// link targets longer than NAME_MAX (up to PATH_MAX is legal): 267 bytes relative, 268 absolute, one in a chain
 	{
 		a, b, cc := strings.Repeat("a", 100), strings.Repeat("b", 100), strings.Repeat("c", 60)
